@@ -49,6 +49,9 @@ structure St where
   normC : Float := 1.0
   rtol : Float := 1e-5
   rules : List (List (Float × Float)) := []
+  tab : List (List (Float × Float)) := []          -- roots_legendre(k), k = 1 … (index k-1)
+  gq : GQ Float := { minO := 1, maxO := 1, rtol := 1e-5, roots := [], weights := [] }
+  objI : Bool := false                             -- line shapes integrate with the GaussianQuadrature object `gq`
   cdf : Bool := false                              -- post-fix variant of add_lorentzian_line (notes/fixes/C02-1.diff)
   gtab : List (Float × Float × Float) := []        -- (wavelength, x, cumulative) supplied by the harness
 
@@ -58,9 +61,14 @@ def lookupG (st : St) (wl x : Float) : Float :=
   | some p => p.2.2
   | none => 0.0 / 0.0
 
+def tableOf (st : St) (k : Nat) : List (Float × Float) := if k = 0 then [] else st.tab.getD (k - 1) []
+
+def gqState (g : GQ Float) : String := s!"{g.minO} {g.maxO} {fF g.rtol}"
+
 def starkI (st : St) : Float → Float → Float → Float → Float :=
   fun wl fwhm a b =>
-    if st.cdf then
+    if st.objI then gqEval (starkFunction fns st.normC wl fwhm) st.gq a b
+    else if st.cdf then
       -- the patched bin integral: closed-form cumulative, clipped at the cut-offs
       (1.0 / st.normC) * (lookupG st wl (minv b (wl + st.cutL * fwhm)) - lookupG st wl (maxv a (wl - st.cutL * fwhm)))
     else gaussQuad (starkFunction fns st.normC wl fwhm) st.rtol st.rules a b
@@ -122,6 +130,19 @@ def step (st : St) (ts : List String) : St × String :=
       let (tab, _) := takeTable rest
       let t := zeemanNormalise tab
       (st, fFs (t.map (·.1) ++ t.map (·.2)))
+  | "gqtab" :: k :: rest => ({ st with tab := parseRules (pN k) rest }, "ok")
+  | ["gqnew", mn, mx, rt] =>
+      let g := gqNew (tableOf st) (pN mn) (pN mx) (pF rt)
+      ({ st with gq := g }, gqState g)
+  | ["gqset", what, v] =>
+      let op : GQOp Float := if what == "min" then .setMin (pI v) else if what == "max" then .setMax (pI v) else .setRtol (pF v)
+      let (g, raised) := gqSet (tableOf st) st.gq op
+      ({ st with gq := g }, s!"{fB raised} {gqState g}")
+  | ["obji", b] => ({ st with objI := pB b }, "ok")
+  | "gqe" :: "poly" :: a :: b :: cs => (st, fF (gqEval (polyEval (cs.map pF)) st.gq (pF a) (pF b)))
+  | ["gqe", "stark", a, b, x0, fw] => (st, fF (gqEval (starkFunction fns st.normC (pF x0) (pF fw)) st.gq (pF a) (pF b)))
+  | ["gqe", "exp", a, b, k] => (st, fF (gqEval (fun x => Float.exp (pF k * x)) st.gq (pF a) (pF b)))
+  | ["gqe", "runge", a, b, k] => (st, fF (gqEval (fun x => 1.0 / (1.0 + pF k * x * x)) st.gq (pF a) (pF b)))
   | ["mode", m] => ({ st with cdf := m == "cdf" }, "ok")
   | "gtab" :: n :: rest => ({ st with gtab := parseTriples (pN n) (rest.map pF) }, "ok")
   | "mc" :: pol :: r :: rest =>
